@@ -152,39 +152,36 @@ Definition Array : agg :=
 (* (the conjunction is written with [if] so that evaluation hashes only Compare-equal keys) *)
 Definition hm_same (k v : value) : bool := if vcompare k v =? 0 then vhash k =? vhash v else false.
 
-Fixpoint hm_get (m : list (value * Z)) (v : value) : option Z :=
-  match m with
-  | [] => None
-  | (k, c) :: rest => if hm_same k v then Some c else hm_get rest v
-  end.
-(* Put of a fresh key appends; the count update goes through the stored pointer *)
-Fixpoint hm_set (m : list (value * Z)) (v : value) (c : Z) : list (value * Z) :=
-  match m with
-  | [] => [(v, c)]
-  | (k, c0) :: rest => if hm_same k v then (k, c) :: rest else (k, c0) :: hm_set rest v c
-  end.
-Fixpoint hm_remove (m : list (value * Z)) (v : value) : list (value * Z) :=
-  match m with
-  | [] => []
-  | (k, c) :: rest => if hm_same k v then rest else (k, c) :: hm_remove rest v
-  end.
-
-(* the map after one Add, and what is forwarded to the wrapped aggregate:
+(* One Add on the map, in one pass = Get (Put of a fresh distinctKey{0} when absent), the count update through
+   the stored pointer, Remove at 0; and what is forwarded to the wrapped aggregate:
      if item.count == 1 && !retraction { wrapped.Add(false, value) }
-     else if item.count == 0           { items.Remove(value); wrapped.Add(true, value) } *)
-Definition dist_step (m : list (value * Z)) (r : bool) (v : value) : list (value * Z) * option (bool * value) :=
-  let c0 := match hm_get m v with Some c => c | None => 0 end in
-  let c1 := c0 + delta r in
-  let m1 := hm_set m v c1 in
-  if (c1 =? 1) && negb r then (m1, Some (false, v))
-  else if c1 =? 0 then (hm_remove m1 v, Some (true, v))
-  else (m1, None).
+     else if item.count == 0           { items.Remove(value); if retraction { wrapped.Add(true, value) } }
+   [guard] = false is the code before the fix (the inner `if retraction` absent): an addition that cancels an
+   earlier out-of-order retraction (count -1 -> 0) forwarded a retraction the wrapped aggregate never saw. *)
+Definition dist_entry (guard : bool) (k : value) (c1 : Z) (r : bool) (v : value) (rest : list (value * Z))
+  : list (value * Z) * option (bool * value) :=
+  if (c1 =? 1) && negb r then ((k, c1) :: rest, Some (false, v))
+  else if c1 =? 0 then (rest, if r || negb guard then Some (true, v) else None)
+  else ((k, c1) :: rest, None).
 
-Definition Distinct (W : agg) : agg :=
+Fixpoint dist_upd (guard : bool) (m : list (value * Z)) (r : bool) (v : value)
+  : list (value * Z) * option (bool * value) :=
+  match m with
+  | [] => dist_entry guard v (delta r) r v []
+  | (k, c) :: rest =>
+      if hm_same k v then dist_entry guard k (c + delta r) r v rest
+      else let '(rest', fw) := dist_upd guard rest r v in ((k, c) :: rest', fw)
+  end.
+Definition dist_step : list (value * Z) -> bool -> value -> list (value * Z) * option (bool * value) :=
+  dist_upd true.
+
+Definition DistinctG (guard : bool) (W : agg) : agg :=
   mkagg (list (value * Z) * st W) ([], init W)
-        (fun s r v => let '(m', fw) := dist_step (fst s) r v in
+        (fun s r v => let '(m', fw) := dist_upd guard (fst s) r v in
                       (m', match fw with Some e => add W (snd s) (fst e) (snd e) | None => snd s end))
         (fun s => trig W (snd s)).
+Definition Distinct : agg -> agg := DistinctG true.
+Definition Distinct_pinned : agg -> agg := DistinctG false.
 
 (* ---- table.go: the prototypes behind aggregates.Aggregates ---- *)
 Inductive agg_kind : Type :=
@@ -212,29 +209,25 @@ Fixpoint net (h : hist) (v : value) : Z :=
 
 (* a list of values represents the net multiset of a history *)
 Definition represents (l : list value) (h : hist) : Prop := forall v, ccount l v = net h v.
-(* no prefix retracts a value that is absent *)
-Definition valid_hist (h : hist) : Prop := forall p s, h = p ++ s -> forall v, 0 <= net p v.
-
-(* W reports, after every valid history with a non-empty net multiset, a value satisfying [spec] of
-   every list that represents that multiset *)
+(* W reports, after every history — any interleaving of additions and retractions, retractions may come before
+   the additions they cancel — whose net multiset is a non-empty multiset, a value satisfying [spec] of every
+   list that represents that multiset.  ([represents l h] forces every class of h to have net >= 0.) *)
 Definition agg_correct (W : agg) (spec : list value -> outcome value -> Prop) : Prop :=
-  forall h l, valid_hist h -> represents l h -> l <> [] -> spec l (trig W (run W h)).
+  forall h l, represents l h -> l <> [] -> spec l (trig W (run W h)).
 
-(* executable: maintain a list representing the net multiset; None as soon as an absent value is retracted *)
+(* executable: the members present and the retractions still owed (classes whose net is negative) *)
 Fixpoint remove_class (l : list value) (v : value) : option (list value) :=
   match l with
   | [] => None
   | x :: xs => if veq x v then Some xs
                else match remove_class xs v with Some xs' => Some (x :: xs') | None => None end
   end.
-Definition netl_step (l : list value) (e : bool * value) : option (list value) :=
-  if fst e then remove_class l (snd e) else Some (l ++ [snd e]).
-Fixpoint netl_from (l : list value) (h : hist) : option (list value) :=
-  match h with
-  | [] => Some l
-  | e :: t => match netl_step l e with Some l' => netl_from l' t | None => None end
-  end.
-Definition netl (h : hist) : option (list value) := netl_from [] h.
+Definition netl_step (s : list value * list value) (e : bool * value) : list value * list value :=
+  let '(l, d) := s in
+  if fst e
+  then match remove_class l (snd e) with Some l' => (l', d) | None => (l, d ++ [snd e]) end
+  else match remove_class d (snd e) with Some d' => (l, d') | None => (l ++ [snd e], d) end.
+Definition netl (h : hist) : list value * list value := fold_left netl_step h ([], []).
 
 (* one representative per Compare-class: the support of the multiset *)
 Fixpoint vnub (l : list value) : list value :=
@@ -366,21 +359,20 @@ Definition c14_tie (c : c14_case) : bool :=
 Definition abs_units (v : value) : Z :=
   match v with VFloat b => if fl_finite b then Z.abs (fl_units b) else 0 | _ => 0 end.
 
-(* after every Add of a valid history with a non-empty net multiset the observed value must be the
-   aggregate of that multiset computed from scratch; an invalid history is rejected (the engine
-   generates valid ones only) *)
-Fixpoint spec_from (k : agg_kind) (n A : Z) (l : list value) (h : hist) (obs : list (outcome value)) : bool :=
+(* after every Add that leaves a net multiset with no negative class and at least one member, the observed
+   value must be the aggregate of that multiset computed from scratch (all interleavings are in scope) *)
+Fixpoint spec_from (k : agg_kind) (n A : Z) (s : list value * list value) (h : hist) (obs : list (outcome value)) : bool :=
   match h, obs with
   | [], [] => true
   | e :: t, o :: os =>
-      match netl_step l e with
-      | None => false
-      | Some l' =>
-          let n' := n + 1 in
-          let A' := A + abs_units (snd e) in
-          (match l' with [] => true | _ :: _ => scratch_ok k n' A' l' o end) && spec_from k n' A' l' t os
-      end
+      let s' := netl_step s e in
+      let n' := n + 1 in
+      let A' := A + abs_units (snd e) in
+      (match s' with
+       | (x :: l', []) => scratch_ok k n' A' (x :: l') o
+       | _ => true
+       end) && spec_from k n' A' s' t os
   | _, _ => false
   end.
 Definition c14_spec (c : c14_case) : bool :=
-  let '(k, h, obs) := c in spec_from k 0 0 [] h obs.
+  let '(k, h, obs) := c in spec_from k 0 0 ([], []) h obs.
